@@ -42,7 +42,7 @@ SCOPES = {
   "styled": ({"regions": (1, 3), "ruby": False, "animation": False, "display": False, "timing": True},
              {"styles": 0.8, "region_all": True, "extra_divs": True}),
   "regions": ({"regions": (2, 3), "ruby": False, "animation": False, "display": False, "timing": False}, {"region_all": True, "extra_divs": True}),
-  "ruby": ({"regions": (0, 1), "animation": False, "display": False}, {"more_ruby": True}),
+  "ruby": ({"regions": (0, 3), "animation": False, "display": False}, {"more_ruby": True}),
   "subms": ({"regions": (0, 2), "ruby": False, "animation": False}, {"subms": True}),
 }
 
@@ -82,7 +82,19 @@ def make_ruby(doc, r, rid):
   ru = m.Ruby(doc)
   ru.set_id(rid)
   base, ann = r.choice(["BASE", "ba se", "B&B", "漢字"]), r.choice(["rt", "r t", "かん"])
-  if r.random() < 0.5:
+  k = r.random()
+  if k < 0.12:
+    # an annotation without content (model API), or one that is flowed into another region: the base must still be written
+    rt = m.Rt(doc)
+    rt.set_id(f"{rid}t")
+    ru.push_children([part(m.Rb, "b", base), rt])
+  elif k < 0.24:
+    rt = part(m.Rt, "t", ann)
+    regs = list(doc.iter_regions())
+    if regs:
+      rt.set_region(r.choice(regs))
+    ru.push_children([part(m.Rb, "b", base), rt])
+  elif k < 0.6:
     ru.push_children([part(m.Rb, "b", base), part(m.Rt, "t", ann)])
   else:
     ru.push_children([part(m.Rb, "b", base), part(m.Rp, "p", "("), part(m.Rt, "t", ann), part(m.Rp, "q", ")")])
@@ -132,10 +144,7 @@ def enrich(doc, r, opts):
         e.remove_animation_step(st)
       elif e.get_begin() not in (None, 0):
         e.remove_animation_step(st)      # known finding of C02 (step instants of an element with a non-zero begin)
-    # ruby parts carry no timing (known finding of C01: from_model raises on a ruby with an inactive part)
-    if isinstance(e, (m.Rb, m.Rt, m.Rp, m.Rbc, m.Rtc)) or in_ruby(e):
-      e.set_begin(None)
-      e.set_end(None)
+    # (ruby parts keep their timing: a ruby whose annotation or base is temporarily inactive)
     if isinstance(e, m.Rp) and not e.has_children():
       s = m.Span(doc)
       s.set_id(e.get_id() + "s")
@@ -182,6 +191,17 @@ def enrich(doc, r, opts):
         e.set_style(SP.Extent, sp.ExtentType(height=sp.LengthType(h, sp.LengthType.Units.pct), width=sp.LengthType(80, sp.LengthType.Units.pct)))
       if r.random() < 0.5:
         e.set_style(SP.DisplayAlign, r.choice(list(sp.DisplayAlignType)))
+      if e.get_begin() in (None, 0) and r.random() < 0.3:
+        # the region moves: a cue setting derived from the region must be derived per interval
+        b, en = r.choice([None, Fraction(1), Fraction(2)]), r.choice([None, Fraction(3), Fraction(5)])
+        ext = e.get_style(SP.Extent)
+        ys = [y for y in (0, 20, 60, 85) if ext is not None and ext.height.units is sp.LengthType.Units.pct and y + ext.height.value <= 100]
+        if r.random() < 0.5 or not ys:
+          e.add_animation_step(m.DiscreteAnimationStep(SP.DisplayAlign, b, en, r.choice(list(sp.DisplayAlignType))))
+        else:
+          y = r.choice(ys)      # (the region stays inside the root container)
+          e.add_animation_step(m.DiscreteAnimationStep(SP.Origin, b, en, sp.CoordinateType(x=sp.LengthType(10, sp.LengthType.Units.pct),
+                                                                                          y=sp.LengthType(y, sp.LengthType.Units.pct))))
       if opts.get("region_all"):
         e.set_begin(None)
         e.set_end(None)
